@@ -139,6 +139,12 @@ def run_versions(spec, res):
     with Traps():
         cid_spec = rng.choice((None, None, "", "x", "afkak-verif \u00fcn\u00ef", b"bytes-id", b""))
         kw_cid = {} if cid_spec is None else dict(clientId=cid_spec)
+        rng_c = random.Random((spec["seed"] * 7919) ^ 0xC0221D)
+        if rng_c.random() < 0.3:
+            # a client whose correlation-id counter is about to pass the int32 limit (a long-lived one, or one
+            # constructed with correlation_id=...): the ids must wrap, every header must still be encodable
+            kw_cid = dict(kw_cid, correlation_id=2 ** 31 - rng_c.randint(1, 14))
+            res.hit("clients_crossing_the_correlation_id_limit")
         client = w.client(timeout=1000, enable_protocol_version_discovery=True, **kw_cid)
         producer = Producer(client, req_acks=1, max_req_attempts=4, retry_interval=0.1, codec=codec)
         consumers = []
